@@ -207,6 +207,7 @@ func c05RunHistory(r *Run, d *c05Drv, hist []string, rec bool, label string) map
 	inherited := map[string]bool{} // conjuncts already failing in the opened input package
 	rejectedEdit := false          // a row/column edit answered with an error since the workbook was created/opened
 	copiedOver := false            // CopySheet replaced the content of a worksheet since then
+	emptySpelled := false          // SetCellFormula(cell, "") was called with a non-canonical spelling of the cell
 	for i, line := range hist {
 		op := strings.Fields(line)[0]
 		res := c05Exec(h, line)
@@ -226,10 +227,15 @@ func c05RunHistory(r *Run, d *c05Drv, hist []string, rec bool, label string) map
 		}
 		switch op {
 		case "h.new", "h.open", "h.openbytes":
-			rejectedEdit, copiedOver = false, false
+			rejectedEdit, copiedOver, emptySpelled = false, false, false
 		case "h.copysheet":
 			if res == "ok" {
 				copiedOver = true
+			}
+		case "h.setformula":
+			// SetCellFormula(cell, "") with a spelling that is not the canonical reference
+			if w := strings.Fields(line); len(w) > 3 && w[3] == "-" && w[2] != strings.ToUpper(strings.ReplaceAll(w[2], "$", "")) && res == "ok" {
+				emptySpelled = true
 			}
 		case "h.insrows", "h.inscols", "h.rmrow", "h.rmcol", "h.duprow", "h.duprowto":
 			if res == "ERR" {
@@ -298,6 +304,9 @@ func c05RunHistory(r *Run, d *c05Drv, hist []string, rec bool, label string) map
 			} else if f[0] == "calc-chain" && copiedOver {
 				// CopySheet does not drop the chain entries of the worksheet it overwrites (its own finding)
 				sig += ":after-copysheet"
+			} else if f[0] == "calc-chain" && emptySpelled {
+				// SetCellFormula("") hands the caller's spelling to deleteCalcChain (its own finding)
+				sig += ":after-empty-formula-by-noncanonical-ref"
 			}
 			if inherited[f[0]] {
 				// the input fixture already violates this conjunct: not attributable to the library
